@@ -1,2 +1,6 @@
--- Root of the `UtapModel` library: property modules (each imports its models and generated tables).
+-- Root of the `UtapModel` library: every property module (each imports its models and generated tables).
+-- `./check --setup` builds this target and all drivers so that later check runs start from a warm cache.
+import UtapModel.Props.C02
+import UtapModel.Props.C03
 import UtapModel.Props.C18
+import UtapModel.Gen.PrinterWitness
